@@ -19,6 +19,15 @@ Local variables: a variable with a type annotation (or a parameter) lives in the
 (fields v0, v1, … in order of first appearance -- renaming a variable does not change the output); a variable
 bound by `NAME = <effectful call>` or by `try: NAME = D[k] … else:` is a λ-bound variable of the rest.
 
+Discrimination rules (audit): two Python expressions that differ on a value that can reach them never get the
+same Lean term.  `_state` (a name or UNDEF, type SQ) and Optional[str] (type OQ) are distinct types: `is None`
+only on OQ / `_next_event`, `is block.UNDEF` only on SQ / the output value, `==` between them is exact; truth
+values only of bools and of `_next_event` (None or a 3-tuple); `x in self._ct_events` only after
+`isinstance(x, str)` in the same and/or chain (hashing an arbitrary event type may raise); no ordering
+comparisons, `len`, other containers, `except` other than KeyError, `raise … from`, augmented or multiple
+assignment, effects under `or`; the arguments of ignored calls (logging, exception messages, assert messages)
+must be effect-free expressions; `check_call_path` verifies that the translated method is the code that runs.
+
 Supported statements (anything else: Untranslatable):
   docstring, `self.log_*(…)`, bare annotation               -> nothing
   NAME = <pure expr> | a, b, c = self._next_event | NAME = <effectful call>
@@ -41,7 +50,7 @@ def U(msg):
     return H.Untranslatable(msg)
 
 
-LEAN_T = {'E': 'E', 'D': 'D', 'Q': 'Q', 'OQ': 'Option Q', 'TE': 'TE', 'V': 'V', 'I': 'I', 'B': 'Bool',
+LEAN_T = {'E': 'E', 'D': 'D', 'Q': 'Q', 'OQ': 'Option Q', 'SQ': 'Option Q', 'TE': 'TE', 'V': 'V', 'I': 'I', 'B': 'Bool',
           'N': 'Nat', 'ONX': 'Option (E × D × Option Q)'}
 
 # annotation text -> type
@@ -280,7 +289,7 @@ class TrFsm:
                 if p not in env['defined']:
                     raise U(f'{p} may be read before it is assigned')
                 return (f'sl.2.{f[1]}', f[2])
-            table = {'self._state': ('(p.getState sl.1)', 'OQ'), 'self._next_event': ('(p.getNext sl.1)', 'ONX'),
+            table = {'self._state': ('(p.getState sl.1)', 'SQ'), 'self._next_event': ('(p.getNext sl.1)', 'ONX'),
                      'self._fsm_event_active': ('(p.getActive sl.1)', 'B'),
                      'self._ct_chainlimit': ('(p.chainLimit sl.1)', 'N')}
             if p in table:
@@ -297,8 +306,19 @@ class TrFsm:
         if isinstance(node, ast.UnaryOp) and isinstance(node.op, ast.Not):
             return (f'(!{self.truthy(node.operand, env)})', 'B')
         if isinstance(node, ast.BoolOp):
-            op = ' && ' if isinstance(node.op, ast.And) else ' || '
-            return ('(' + op.join(self.truthy(v, env) for v in node.values) + ')', 'B')
+            # operands are evaluated left to right and only while the result is open: after a false
+            # `not isinstance(x, str)` in an `or` (a true `isinstance(x, str)` in an `and`) x is a str
+            is_and = isinstance(node.op, ast.And)
+            e2 = dict(env)
+            e2['isstr'] = set(env.get('isstr', ()))
+            parts = []
+            for v in node.values:
+                parts.append(self.truthy(v, e2))
+                test = v if is_and else (v.operand if isinstance(v, ast.UnaryOp) and isinstance(v.op, ast.Not) else None)
+                if (isinstance(test, ast.Call) and self.path(test.func) == 'isinstance' and len(test.args) == 2
+                        and self.path(test.args[1]) == 'str' and self.path(test.args[0]) is not None):
+                    e2['isstr'].add(self.path(test.args[0]))
+            return ('(' + (' && ' if is_and else ' || ').join(parts) + ')', 'B')
         if isinstance(node, ast.IfExp):
             c = self.truthy(node.test, env)
             a, aty = self.expr(node.body, env)
@@ -344,7 +364,7 @@ class TrFsm:
     def as_oq(self, node, env):
         """an expression used where a state-or-None is expected"""
         t, ty = self.expr(node, env)
-        if ty == 'OQ':
+        if ty in ('OQ', 'SQ'):
             return t
         if ty == 'Q':
             return f'(some {t})'
@@ -376,22 +396,30 @@ class TrFsm:
                 if ty in ('OQ', 'ONX'):
                     return f'({t}).isSome' if neg else f'({t}).isNone'
                 raise U(f'is None on {ty}')
-            if self.path(right) in ('block.UNDEF', 'UNDEF'):
+            if self.path(right) == 'block.UNDEF':
                 if ty == 'V':
                     return f'(!(p.isUndef {t}))' if neg else f'(p.isUndef {t})'
-                if ty == 'OQ':                      # the state: UNDEF is `none`
+                if ty == 'SQ':                      # the attribute `_state`: UNDEF is `none` (it is never None)
                     return f'({t}).isSome' if neg else f'({t}).isNone'
-            raise U('identity test ' + ast.unparse(left))
+            # `_state is None` (always false), `newstate is UNDEF` (always false), `is` between two values: refused
+            raise U('identity test ' + ast.unparse(left) + ' : ' + ty)
         if isinstance(op, (ast.In, ast.NotIn)) and self.path(right) == 'self._ct_events':
             t, ty = self.expr(left, env)
+            if ty == 'E' and self.path(left) not in env.get('isstr', ()):
+                # an event type that is no str may be unhashable: `x in <set>` could raise TypeError, so the
+                # position of this test relative to `isinstance(x, str)` matters
+                raise U(f'{ast.unparse(left)} in self._ct_events: not preceded by an isinstance(…, str) test')
             if ty == 'E':
                 return f'(!(p.isEvent sl.1 {t}))' if isinstance(op, ast.NotIn) else f'(p.isEvent sl.1 {t})'
         if isinstance(op, (ast.Eq, ast.NotEq)):
             a, aty = self.expr(left, env)
             b, bty = self.expr(right, env)
-            if {aty, bty} <= {'OQ', 'Q'}:
+            if {aty, bty} <= {'OQ', 'SQ', 'Q'}:
                 a, b = self.as_oq(left, env), self.as_oq(right, env)
-                return f'(decide ({a} = {b}))' if isinstance(op, ast.Eq) else f'(!decide ({a} = {b}))'
+                eq = f'(decide ({a} = {b}))'
+                if {aty, bty} == {'OQ', 'SQ'}:
+                    eq = f'(({a}).isSome && decide ({a} = {b}))'    # None == UNDEF is false
+                return eq if isinstance(op, ast.Eq) else f'(!{eq})'
         raise U('comparison ' + ast.unparse(left) + ' ' + type(op).__name__)
 
     def coerce(self, text, ty, want):
@@ -403,6 +431,36 @@ class TrFsm:
             return 'none'
         raise U(f'a value of type {ty} where {want} is expected')
 
+    # ---- expressions that are evaluated but not translated ---------------------------
+    def inert(self, node):
+        """arguments of logging calls, of exception constructors and assert messages are not translated;
+        they are evaluated eagerly, so they must be expressions without side effects whose evaluation is
+        not expected to raise: constants, names, attributes, constant subscripts, f-strings / tuples /
+        string concatenation of these (NOT calls, `%`-formatting, comprehensions, arithmetic)"""
+        if isinstance(node, (ast.Constant, ast.Name)):
+            return True
+        if isinstance(node, ast.Attribute):
+            return self.inert(node.value)
+        if isinstance(node, ast.Subscript):
+            return self.inert(node.value) and isinstance(node.slice, ast.Constant)
+        if isinstance(node, ast.JoinedStr):
+            return all(self.inert(v) for v in node.values)
+        if isinstance(node, ast.FormattedValue):
+            return self.inert(node.value) and (node.format_spec is None or self.inert(node.format_spec))
+        if isinstance(node, ast.Tuple):
+            return all(self.inert(v) for v in node.elts)
+        if isinstance(node, ast.BinOp) and isinstance(node.op, ast.Add):
+            # implicit/explicit concatenation of message parts
+            return all(self.inert(v) and isinstance(v, (ast.Constant, ast.JoinedStr, ast.BinOp))
+                       for v in (node.left, node.right))
+        return False
+
+    def check_inert(self, nodes, what):
+        for n in nodes:
+            if not self.inert(n):
+                raise U(f'{what}: the expression `{ast.unparse(n)[:60]}` is evaluated but not translated '
+                        'and is not obviously free of effects')
+
     # ---- effectful calls ----------------------------------------------------------
     def proc(self, call, env):
         """an expression statement that is a call -> Lean `Eff` term (a function of `sl`), or None = ignored"""
@@ -410,6 +468,8 @@ class TrFsm:
         if fp is None:
             raise U('call ' + ast.unparse(call)[:80])
         if fp.startswith('self.log_'):
+            # the message is formatted lazily by the logging module; the arguments are evaluated here
+            self.check_inert(list(call.args) + [k.value for k in call.keywords], 'logging call')
             return None
         if call.keywords:
             raise U('keyword arguments in ' + ast.unparse(call)[:80])
@@ -526,9 +586,12 @@ class TrFsm:
         if isinstance(s, ast.Continue):
             return 'cont'
         if isinstance(s, ast.Assert):
+            if s.msg is not None:
+                self.check_inert([s.msg], 'assert message')
             return f'branch (fun sl => {self.truthy(s.test, env)}) skip (raise (p.exc "AssertionError"))'
         if isinstance(s, ast.Raise):
             if isinstance(s.exc, ast.Call) and isinstance(s.exc.func, ast.Name) and s.cause is None:
+                self.check_inert(list(s.exc.args) + [k.value for k in s.exc.keywords], 'exception message')
                 return f'raise (p.exc "{s.exc.func.id}")'
             raise U('raise ' + ast.unparse(s)[:80])
         if isinstance(s, ast.Return):
@@ -731,6 +794,54 @@ class TrFsm:
             '  | (sl, f) => (sl.1, f)')
 
 
+PRIM_METHODS = ('_ctx_event', '_event', 'event', '_check_state', '_run_cb', '_send_events', '_stop_timer',
+                '_start_timer', '_set_timer', 'set_output', 'is_initialized', '_enable_event')
+
+
+def check_call_path(fsm_mod, fn):
+    """the translated method must be the code that RUNS, and the names it uses must be what the primitive
+    table says: `SBlock.event` -> `FSM._event` -> `FSM._ctx_event` (no renamed copy left behind as dead
+    code), no decorator, the library subclasses do not override the methods taken as primitives, the module
+    globals used by the method are the expected objects"""
+    import collections.abc
+    import contextvars
+    import types as types_mod
+    import edzed
+    from edzed import block
+    from edzed.blocklib import fsms, sblocks2
+    FSM = fsm_mod.FSM
+    if fn.decorator_list:
+        raise U('_ctx_event is decorated')
+    for name in ('_ctx_event', '_event'):
+        if name not in vars(FSM):
+            raise U(f'FSM.{name} is not defined in class FSM')
+    if 'event' in vars(FSM):
+        raise U('FSM overrides event()')
+    ev = H.fn_ast(FSM._event)
+    body = [st for st in ev.body
+            if not (isinstance(st, ast.Expr) and isinstance(st.value, ast.Constant) and isinstance(st.value.value, str))]
+    if ([a.arg for a in ev.args.args] != ['self', 'etype', 'data'] or ev.decorator_list or len(body) != 1
+            or ast.unparse(body[0]) != 'return contextvars.copy_context().run(self._ctx_event, etype, data)'):
+        raise U('FSM._event is not `return contextvars.copy_context().run(self._ctx_event, etype, data)`')
+    sb = H.fn_ast(block.SBlock.event)
+    if not any(isinstance(n, ast.Call) and ast.unparse(n) == 'self._event(etype, data)' for n in ast.walk(sb)):
+        raise U('SBlock.event does not call self._event(etype, data)')
+    for cls in (fsms.Timer, sblocks2.InputExp):
+        for name in PRIM_METHODS:
+            if name in vars(cls):
+                raise U(f'{cls.__name__} overrides {name}')
+    expected = {'Goto': getattr(edzed, 'Goto', None), 'MutableMapping': collections.abc.MutableMapping,
+                'types': types_mod, 'block': block, 'contextvars': contextvars,
+                'EdzedCircuitError': edzed.EdzedCircuitError, 'EdzedUnknownEvent': edzed.EdzedUnknownEvent}
+    for name, obj in expected.items():
+        if getattr(fsm_mod, name, None) is not obj or obj is None:
+            raise U(f'module name {name} is not the expected object')
+    if not isinstance(fsm_mod.fsm_event_data, contextvars.ContextVar) or block.UNDEF is not edzed.UNDEF:
+        raise U('fsm_event_data / block.UNDEF are not the expected objects')
+    if fsm_mod.Goto.__module__ != fsm_mod.__name__ or 'state' not in getattr(fsm_mod.Goto, '__dataclass_fields__', {}):
+        raise U('Goto is not the dataclass with the field `state`')
+
+
 def main_fsm(outfile, helpers):
     global H
     H = helpers
@@ -740,7 +851,11 @@ def main_fsm(outfile, helpers):
     t = dict(name='ctxEvent', doc='fsm.FSM._ctx_event')
 
     def translate(_t):
-        return TrFsm(H.fn_ast(fsm.FSM._ctx_event)).translate()
+        fn = H.fn_ast(fsm.FSM._ctx_event)
+        if not isinstance(fn, ast.FunctionDef):
+            raise U('_ctx_event is not a plain function')
+        check_call_path(fsm, fn)
+        return TrFsm(fn).translate()
 
     try:
         text = translate(t)
